@@ -292,6 +292,13 @@ def check(run, cases=None):
         error_object_twins(run)
         from . import c04
         c04.large_tree(run, one_step=True)       # size dimension: thousands of vertices, exact step known in closed form
+    if cases_given is None:
+        # histories: the contributions of an edge and a ONE-iteration call are those of the current numbers also after optimizer runs and the
+        # user's edits (the same call on a graph rebuilt from the current numbers moves the poses to the same bits)
+        from .. import scenario
+        scenario.histories(run, ['se2', 'se3', 'r2', 'r3', 'mixed', 'se2c', 'se3reg', 'se2fix'], 60 if run.tier == 'thorough' else 8, 14,
+                           lambda cl, ev: (cl == 'query-fresh' and ev.get('q') == 'edge_contribs') or (cl == 'opt-fresh' and ev['maxIter'] == 1 and not ev['rep']['freshPosesOk']),
+                           max_iters=(1, 1, 2))
     run.rule = ('lattice graphs of 2-8 vertices (R2, R3, SE2+R2, SE3+R3, mixed dimensionality), edges naming vertices in either order, parallel edges, '
                 'landmark edges with rotated offsets, unary/binary/ternary custom edges with numerical Jacobians, random fixed subsets, fix_first_pose T/F, '
                 'permuted vertex lists, four id maps (dense, negative, > 2^32, descending); TLC assembles the reduced normal equations exactly (H symmetric '
